@@ -113,7 +113,7 @@ class DataFolder:
             OSError: If the data folder already contains a file with the same name.
         """
 
-        if not re.match(r"^[-_a-zA-Z0-9(),]+$", ds.name):
+        if not re.fullmatch(r"[-_a-zA-Z0-9(),]+", ds.name):
             raise ValueError("Invalid DataSet name {!r}".format(ds.name))
 
         if file_format == "hdf5":
@@ -183,7 +183,7 @@ class DataFolder:
         Raises:
             ValueError: If the `name` has non-latin character(s).
         """
-        if not re.match(r"^[-_a-zA-Z0-9(),]+$", name):
+        if not re.fullmatch(r"[-_a-zA-Z0-9(),]+", name):
             raise ValueError("Invalid name {!r}".format(name))
 
         filename = name + ".h5"
@@ -205,7 +205,7 @@ class DataFolder:
         Raises:
             ValueError: If the `name` has non-latin character(s).
         """
-        if not re.match(r"^[-_a-zA-Z0-9(),]+$", name):
+        if not re.fullmatch(r"[-_a-zA-Z0-9(),]+", name):
             raise ValueError("Invalid name {!r}".format(name))
 
         filename = name + ".h5"
@@ -301,15 +301,15 @@ class DataStore:
             # Specified by user.
             if timestamp is not None:
                 raise ValueError("Do not specify date_str, time_str and timestamp together")
-            if not re.match(r"^[0-9]{8}$", date_str):
+            if not re.fullmatch(r"[0-9]{8}", date_str):
                 raise ValueError("Invalid format for date_str")
-            if not re.match(r"^[0-9]{6}$", time_str):
+            if not re.fullmatch(r"[0-9]{6}", time_str):
                 raise ValueError("Invalid format for time_str")
 
         # Check label format.
         if (not isinstance(label, str)) or (not label):
             raise ValueError("Label must be a non-empty string")
-        if not re.match(r"^[-_a-zA-Z0-9().,]+$", label):
+        if not re.fullmatch(r"[-_a-zA-Z0-9().,]+", label):
             raise ValueError("Invalid characters in label")
 
         # Ensure date subdirectory exists.
@@ -393,13 +393,13 @@ class DataStore:
         date_dirs = os.listdir(self.basedir)
         date_dirs.sort()
         for dd in date_dirs:
-            if re.match(r"^[0-9]{8}$", dd):
+            if re.fullmatch(r"[0-9]{8}", dd):
                 date_str = dd
                 date_path = os.path.join(self.basedir, dd)
                 folders = os.listdir(date_path)
                 folders.sort()
                 for ff in folders:
-                    m = re.match(r"^([0-9]{6})_(.+)$", ff)
+                    m = re.fullmatch(r"([0-9]{6})_(.+)", ff)
                     if m:
                         time_str = m.group(1)
                         folder_label = m.group(2)
@@ -428,12 +428,12 @@ class DataStore:
 
         date_dirs.sort(reverse=True)
         for dd in date_dirs:
-            if re.match(r"^[0-9]{8}$", dd):
+            if re.fullmatch(r"[0-9]{8}", dd):
                 date_path = os.path.join(self.basedir, dd)
                 folders = os.listdir(date_path)
                 folders.sort(reverse=True)
                 for ff in folders:
-                    m = re.match(r"^([0-9]{6})_(.+)$", ff)
+                    m = re.fullmatch(r"([0-9]{6})_(.+)", ff)
                     if m and m.group(2) == label:
                         time_str = m.group(1)
                         folder_path = os.path.join(date_path, ff)
